@@ -28,7 +28,7 @@ ANCHORS = ["decaylanguage.dec.dec:DecFileParser._add_decays_to_be_copied", "deca
            "decaylanguage.dec.dec:DecFileParser.expand_decay_modes", "decaylanguage.dec.dec:DecFileParser.print_decay_modes"]
 WORKERS = {"quick": 8, "thorough": 16}
 REQUIRED = {**{f"op:{o}": 30 for o in OPS}, "mutated:list": 20, "mutated:dict": 20, "mutated:nested-chain": 20, "mutated:list-of-lists": 10,
-            "file:CopyDecay+CDecay": 10, "file:copy-is-cdecay-source": 5, "file:two-copies-of-one-source": 5, "identity-walk:derived-tables": 20, "reparse": 30, "steps-compared": 1000,
+            "file:CopyDecay+CDecay": 10, "file:copy-is-cdecay-source": 5, "file:two-copies-of-one-source": 5, "file:first-block-is-an-alias-and-copy-source": 5, "file:alias-pair-with-changing-partner": 10, "identity-walk:derived-tables": 20, "reparse": 30, "steps-compared": 1000,
             "exhaustive-short-histories": 100}
 EXHAUSTIVE_NOTE = "all histories of length 2 (quick) / 3 (thorough) over the 15 operation kinds on 5 fixed files"
 ASSUMPTIONS = ["grammar_info() returns the live options dict by design: it is called but never mutated", "a CopyDecay source is a Decay-block mother"]
@@ -58,8 +58,26 @@ def gen_file(ctx, fixed=None):
             lines.append({"bf": r.choice(["1.0", "0.5", ".25", "2E-3", "1", "+0.125", "20.e-2", "0.0314", "1e-5", "0.3333"]), "fs": fs, "photos": r.random() < 0.3, "model": mod[0], "params": list(mod[1])})
         stmts.append({"k": "Decay", "m": m, "lines": lines})
     hits = []
+    first_alias = None
+    if fixed is None and r.random() < 0.3:
+        # the first Decay block of the text belongs to an alias of a particle that has its own block further down; the alias is the copy source
+        first_alias = "MyFirst"
+        tgt = r.choice(ms)
+        stmts.append({"k": "Alias", "a": first_alias, "b": tgt})
+        stmts.append({"k": "Decay", "m": first_alias, "lines": [{"bf": "0.75", "fs": [r.choice(stable), r.choice(stable)], "photos": False, "model": "PHSP", "params": []},
+                                                               {"bf": "0.25", "fs": [r.choice(stable)], "photos": True, "model": "MyHel", "params": []}]})
+        hits.append("file:first-block-is-an-alias-and-copy-source")
+    if fixed is None and r.random() < 0.4:
+        # an aliased pair whose partner name changes from file to file (same interpreter): conjugation follows *this* file's ChargeConj statements
+        x = r.choice(["MyD0", "MyD0tag", "MySigD0", "TagD0"])
+        stmts += [{"k": "Alias", "a": x, "b": "D0"}, {"k": "Alias", "a": "MyAntiD0", "b": "anti-D0"},
+                  {"k": "ChargeConj", "a": x, "b": "MyAntiD0"} if r.random() < 0.7 else {"k": "ChargeConj", "a": "MyAntiD0", "b": x}]
+        for st in stmts:
+            if st["k"] == "Decay" and r.random() < 0.7:
+                st["lines"].append({"bf": "0.011", "fs": ["MyAntiD0", r.choice(stable), x] if r.random() < 0.5 else ["MyAntiD0"], "photos": False, "model": "PHSP", "params": []})
+        hits.append("file:alias-pair-with-changing-partner")
     if r.random() < 0.8 or fixed is not None:
-        old = r.choice(ms)
+        old = first_alias or r.choice(ms)
         stmts.append({"k": "CopyDecay", "a": "MyCopy", "b": old})
         if r.random() < 0.5:
             stmts.append({"k": "CopyDecay", "a": "MyCopy2", "b": old})      # two copies of one source
@@ -73,6 +91,10 @@ def gen_file(ctx, fixed=None):
         hits.append("file:CopyDecay+CDecay")
     head, rest = stmts[:2], stmts[2:]
     r.shuffle(rest)
+    if first_alias:
+        blk = next(st for st in rest if st["k"] == "Decay" and st["m"] == first_alias)
+        rest.remove(blk)
+        rest.insert(next(i for i, st in enumerate(rest) if st["k"] == "Decay"), blk)
     return head + rest if r.random() < 0.5 else rest + head, hits
 
 
